@@ -54,6 +54,8 @@ func init() {
 
 func c07(r *Run) {
 	w := r.W
+	// what is charged is Fee(Units(tx)) and is what the result reports (the quantity MaxFee would have to bound)
+	defer r.importRules(c03, "C03.R2", "C03.R1")
 	r.rule("C07.R1", "K5/K1", "a comparison of the computed fee with Base.MaxFee, whose exceeding edge returns an error, dominates CanDeduct/Deduct", 1)
 	r.rule("C07.R2", "K10", "MaxFee is part of the signed body", 2)
 	pe := r.fn(w, "C07.R1", nmTxPreExecute)
